@@ -1,7 +1,7 @@
 (** C18 — derived-variable conversions round-trip.  Property theorems only; each is closed
     by [exact] of a lemma from Proofs/C18_proofs.v about the REGENERATED definitions. *)
 From Coq Require Import QArith List.
-From IV Require Import GenUtils C18_proofs.
+From IV Require Import GenUtils C18_proofs C18_more.
 Open Scope Q_scope.
 
 Theorem C18_tas_roundtrip : forall tas tmin tmax, ~ tmax == tmin ->
@@ -37,6 +37,24 @@ Theorem C18_rangeskew_roundtrip : forall tas r s, ~ r == 0 ->
   snd (get_tasrange_tasskew tas (fst mm) (snd mm)) == s.
 Proof. exact rangeskew_roundtrip. Qed.
 Print Assumptions C18_rangeskew_roundtrip.
+
+(** exact identities that need no hypothesis: the reconstructed extremes are one range apart for EVERY skew and
+    range, and tas is their skew-weighted mix *)
+Theorem C18_minmax_range_exact : forall tas r s, get_tasmax tas r s - get_tasmin tas r s == r.
+Proof. exact minmax_range_exact. Qed.
+Print Assumptions C18_minmax_range_exact.
+
+Theorem C18_tas_is_mix : forall tas r s, get_tasmin tas r s + s * (get_tasmax tas r s - get_tasmin tas r s) == tas.
+Proof. exact tas_is_mix. Qed.
+Print Assumptions C18_tas_is_mix.
+
+(** the excluded case of the round trips, covered explicitly: on a degenerate day (tasmax == tasmin) the range is 0
+    and both reconstructed extremes equal tas, whatever value the undefined skew took *)
+Theorem C18_degenerate_day : forall tas tmin tmax s, tmax == tmin ->
+  get_tasrange tmin tmax == 0 /\
+  get_tasmin tas (get_tasrange tmin tmax) s == tas /\ get_tasmax tas (get_tasrange tmin tmax) s == tas.
+Proof. exact degenerate_day. Qed.
+Print Assumptions C18_degenerate_day.
 
 Theorem C18_order_preserved : forall tas r s, 0 <= s -> s <= 1 -> 0 <= r ->
   get_tasmin tas r s <= tas /\ tas <= get_tasmax tas r s.
